@@ -19,7 +19,7 @@ from ..gen import catalogue
 from . import prim as P
 
 LEVEL = "exploration"
-RULE = "Namespace battery: every public callable of autograd.numpy, .linalg, .fft, .random (live module dicts minus a printed denylist of I/O, printing, global-state setters and in-place mutators) x argument templates {f(x), f(x,y), f(y,x), f(x,x), f(x,2), f(x,axis=0), f(x,axis=-1)} x x in {vector, matrix, SPD matrix, 3-D} x {reverse, forward}; every ndarray attribute / operator on a tracer; the unsupported-option catalogue (guarded options of supported functions); loudness cases. A (callable, template) is non-trivial iff NumPy accepts the call; it is judged as: raised | dependent and FD-correct | independent and locally constant on NumPy. distinct = distinct (namespace, callable, template, x kind, mode, outcome class)."
+RULE = "Namespace battery: every public callable of autograd.numpy, .linalg, .fft, .random (live module dicts minus a printed denylist of I/O, printing, global-state setters and in-place mutators) x argument templates {f(x), f(x,y), f(y,x), f(x,x), f(x,2), f(x,axis=0), f(x,axis=-1), f(x,y^T), f(y,y2,x), f([conds],[choices],x)} x x in {vector, matrix, SPD matrix, 3-D} x {reverse, forward}; every ndarray attribute / operator on a tracer; the unsupported-option catalogue (guarded options of supported functions); loudness cases. A (callable, template) is non-trivial iff NumPy accepts the call; it is judged as: raised | dependent and FD-correct | independent and locally constant on NumPy. distinct = distinct (namespace, callable, template, x kind, mode, outcome class)."
 ASSUMPTIONS = ["templates are generic; functions needing exotic argument shapes are reached only if a template fits (count reported)", "local variation is decided on raw NumPy at 3 directions x scales {1e-4, 1e-6}", "integer/boolean outputs are piecewise constant by type"]
 
 DENY = {
